@@ -55,9 +55,14 @@ func AdversarialValues(prev []byte) [][]byte {
 	}
 	hdr := append(append([]byte{}, mb2...), 0, 0, 0, 4, 0, 0, 0, 70)
 	out = append(out, append(hdr, []byte(`{"x":{"o":0,"l":0}}`)...)) // leading half of a root record, no trailer
-	if r := FindLastRoot(prev, int64(len(prev))); r != nil {
-		out = append(out, append(be(r.Off, uint32(r.End-r.Off)), me2...))    // trailer of the genuine previous root
-		out = append(out, append([]byte{}, prev[r.Off:r.End]...))            // byte-exact copy of the previous root record
+	// trailers of, and byte-exact copies of, the genuine root records already in
+	// the file: the newest one and up to two older ones (an older record must
+	// not be resurrected by a fragment that merely points at it)
+	roots := AllRoots(prev)
+	for i := len(roots) - 1; i >= 0 && i >= len(roots)-3; i-- {
+		r := roots[i]
+		out = append(out, append(be(r.Off, uint32(r.End-r.Off)), me2...))
+		out = append(out, append([]byte{}, prev[r.Off:r.End]...))
 	}
 	return out
 }
